@@ -14,7 +14,11 @@ RULE = ("put: 0-5 writable + 0-2 read-only fake services (disk/proxy/mixed), wan
         "enumeration of canonical per-service answer sequences for <=2 (quick) / <=3 (thorough) services; "
         "seq: 2-3 puts in a row on ONE client (same services, independent scripts; half of the later puts are "
         "accepted by every writable service); upl: single HTTP exchanges through uploadToKeepServer; load: service lists (JSON, as from discovery) through "
-        "LoadKeepServicesFromJSON/loadKeepServers, also for every put case (read-only services of either type). "
+        "LoadKeepServicesFromJSON/loadKeepServers, also for every put case (read-only services of either type); "
+        "abuf: call sequences on one asyncbuf.Buffer (the buffer between PutHR's stream and the uploads): a writer "
+        "(0-5 writes of 0-5 bytes, then Close/CloseWithError) interleaved with 1-3 readers made at any time reading "
+        "with buffer sizes 0-64, including Reads that have to wait for the next write/close, plus misuse (write "
+        "after close, second close, unknown reader, initial contents). "
         "A put case is non-trivial when at least one answer was processed; distinct = distinct case line")
 ASSUMPTIONS = [
     "the scripted HTTPClient stands for the network: a request whose body cannot be read or has the wrong "
@@ -398,6 +402,70 @@ def gen_disc(rng):
     return "disc uris " + (",".join(uris) or "-")
 
 
+def gen_abuf(rng):
+    """calls on one asyncbuf.Buffer. The generator keeps the same books as the Go driver (bytes
+    written, closed, bytes each reader has got) only to know which Reads wait: a waiting Read must
+    be followed by a call that wakes it (non-empty Write or a close)."""
+    misuse = rng.random() < 0.15
+    init = bytes(rng.getrandbits(8) for _ in range(rng.choice([1, 3]))) if misuse and rng.random() < 0.5 else b""
+    chunks = [bytes(rng.getrandbits(8) for _ in range(rng.choice([0, 1, 1, 2, 3, 5]))) for _ in range(rng.randint(0, 5))]
+    closeop = rng.choice(["c", "c", "cx1", "cx2", "cx7"])
+    prog = ["w" + c.hex() for c in chunks] + [closeop]
+    if misuse:
+        prog += rng.choice([["w" + bytes([7]).hex()], ["c"], ["cx3"], ["w6162", "cx4"], []])
+    ops, written, closed, offs = [], len(init), False, []
+    nread = rng.randint(1, 3)
+    budget = 40
+    def writer_step():
+        nonlocal written, closed
+        op = prog.pop(0)
+        ops.append(op)
+        if op.startswith("c"):
+            closed = True
+        elif not closed:
+            written += len(bytes.fromhex(op[1:]))
+        return op
+    while budget > 0 and (prog or any(o is not None for o in offs) or len(offs) < nread):
+        budget -= 1
+        r = rng.random()
+        if len(offs) < nread and (r < 0.3 or (not prog and not offs)):
+            ops.append("n")
+            offs.append(0)
+            continue
+        if prog and (r < 0.55 or not offs):
+            writer_step()
+            continue
+        if misuse and r > 0.97:
+            ops.append(f"r{len(offs) + rng.randint(0, 2)}:{rng.choice([0, 1, 4])}")
+            continue
+        live = [i for i, o in enumerate(offs) if o is not None]
+        if not live:
+            if not prog and len(offs) >= nread:
+                break
+            continue
+        i = rng.choice(live)
+        n = rng.choice([0, 1, 1, 2, 3, 8, 64])
+        if offs[i] < written:
+            ops.append(f"r{i}:{n}")
+            offs[i] += min(n, written - offs[i])
+        elif closed:
+            ops.append(f"r{i}:{n}")
+            if rng.random() < 0.7:
+                offs[i] = None  # this reader is done (sometimes it reads again after its error)
+        elif n == 0:
+            ops.append(f"r{i}:0")
+        else:
+            # the Read has to wait: only if the writer's next call wakes it
+            if prog and (prog[0].startswith("c") or len(prog[0]) > 1) and rng.random() < 0.6:
+                ops.append(f"r{i}:{n}")
+                before = written
+                op = writer_step()
+                if not op.startswith("c"):
+                    offs[i] += min(n, written - before)
+            # otherwise try something else
+    return f"abuf {init.hex() or '-'} {','.join(ops) or '-'}"
+
+
 def generate(rng, tier):
     cases = []
     if tier == "quick":
@@ -408,6 +476,7 @@ def generate(rng, tier):
         cases += [gen_load(rng) for _ in range(300)]
         cases += [gen_disc(rng) for _ in range(200)]
         cases += [gen_reload(rng) for _ in range(300)]
+        cases += [gen_abuf(rng) for _ in range(800)]
     else:
         cases += gen_exhaustive(rng, 3, 2, sample=0.25)
         cases += [gen_random_put(rng, i % 3300 == 7) for i in range(40000)]
@@ -416,6 +485,7 @@ def generate(rng, tier):
         cases += [gen_load(rng) for _ in range(3000)]
         cases += [gen_disc(rng) for _ in range(1500)]
         cases += [gen_reload(rng) for _ in range(3000)]
+        cases += [gen_abuf(rng) for _ in range(12000)]
     return cases
 
 
@@ -618,6 +688,84 @@ def oracle_load(case, impl):
     return None
 
 
+def oracle_abuf(case, impl):
+    """asyncbuf's contract as PutHR relies on it: every reader, whenever it was made, reads all data
+    written to the Buffer, in order, and only then the error the Buffer was closed with (io.EOF for
+    Close / CloseWithError(nil)); writes before the close are accepted whole"""
+    f = case.split(" ")
+    init = b"" if f[1] == "-" else bytes.fromhex(f[1])
+    ops = [] if f[2] == "-" else f[2].split(",")
+    outs = [] if impl == "-" else impl.split(",")
+    data, closes, got, k = bytearray(init), [], {}, 0
+    nreaders = 0
+
+    def read_result(i, o):
+        if o.startswith("g"):
+            got[i] = got.get(i, b"") + (b"" if o == "g-" else bytes.fromhex(o[1:]))
+            if not bytes(data).startswith(got[i]):
+                return f"reader {i} received bytes that are not a prefix of the data written"
+        elif o.startswith("e:"):
+            if not closes:
+                return f"reader {i} was given an error ({o[2:]}) before the buffer was closed"
+            if got.get(i, b"") != bytes(data):
+                return f"reader {i} was given the final error after {len(got.get(i, b''))} of {len(data)} bytes"
+            if o[2:] not in closes:
+                return f"reader {i} was given {o[2:]}, not the error the buffer was closed with ({closes})"
+        else:
+            return f"Read returned neither bytes nor an error: {o}"
+        return None
+
+    pending = None
+    for op in ops:
+        if k >= len(outs):
+            return "asyncbuf call sequence did not complete: " + impl[:200]
+        o = outs[k]
+        k += 1
+        if o in ("stuck", "hang"):
+            return None if o == "stuck" else "asyncbuf call did not return (hang)"
+        if op.startswith("w"):
+            p = bytes.fromhex(op[1:])
+            if not closes:
+                if o != f"w{len(p)}":
+                    return f"Write of {len(p)} bytes before the close returned {o}"
+                data += p
+            elif not o.startswith("we:"):
+                return f"Write after the close was accepted ({o})"
+        elif op.startswith("c"):
+            if o != "c":
+                return f"CloseWithError returned {o}"
+            closes.append("EOF" if op == "c" else "X" + op[2:])
+        elif op == "n":
+            if o != f"n{nreaders}":
+                return "NewReader: unexpected result " + o
+            nreaders += 1
+        elif op.startswith("r"):
+            i, n = (int(x) for x in op[1:].split(":"))
+            if i >= nreaders:
+                if o != "nr":
+                    return "malformed driver output"
+                continue
+            if o == "block":
+                if closes or len(got.get(i, b"")) < len(data) or n == 0:
+                    return f"reader {i} waits although there is data to read or the buffer is closed"
+                pending = i
+                continue
+            if o.startswith("g") and n > 0 and o == "g-":
+                return f"Read of reader {i} returned no bytes and no error"
+            why = read_result(i, o)
+            if why:
+                return why
+        if pending is not None and not op.startswith("r"):
+            if k >= len(outs):
+                return "a waiting Read was not woken by the next write/close"
+            why = read_result(pending, outs[k])
+            k += 1
+            pending = None
+            if why:
+                return why
+    return None
+
+
 def oracle(case, impl):
     if impl.startswith(("panic", "CRASH", "hang")):
         return "driver could not observe a result: " + impl[:200]
@@ -634,6 +782,8 @@ def oracle(case, impl):
         return oracle_load("load 0 " + case.split(" ")[-1], impl)
     if case.startswith("disc api "):
         return oracle_load("load 0 " + case.split(" ", 2)[2], impl)
+    if case.startswith("abuf "):
+        return oracle_abuf(case, impl)
     if case.startswith("disc uris "):
         return None if impl.startswith("L=") else "service discovery failed: " + impl[:200]
     return None
@@ -662,6 +812,13 @@ def describe(cases, impl):
             d["puts_inside_seq"] = d.get("puts_inside_seq", 0) + int(c.split(" ")[1])
             if r and "503" in r.split(" / ")[0]:
                 d["seq_with_503_in_first_put"] = d.get("seq_with_503_in_first_put", 0) + 1
+        if op == "abuf":
+            a = d.setdefault("abuf", {"reads_that_wait": 0, "readers_reaching_the_end": 0, "close_with_error": 0,
+                                       "misuse_write_after_close_or_second_close": 0})
+            a["reads_that_wait"] += (r or "").count("block")
+            a["readers_reaching_the_end"] += (r or "").count("e:")
+            a["close_with_error"] += 1 if ",cx" in c or " cx" in c else 0
+            a["misuse_write_after_close_or_second_close"] += 1 if "we:" in (r or "") or (r or "").split(",").count("c") > 1 else 0
         if op != "put":
             continue
         p = parse_put(c)
@@ -703,6 +860,8 @@ def neighbours(case, rng):
         return [gen_disc(rng) for _ in range(5)]
     if case.startswith("reload "):
         return [gen_reload(rng) for _ in range(8)]
+    if case.startswith("abuf "):
+        return [gen_abuf(rng) for _ in range(10)]
     if not case.startswith("put "):
         return [gen_upl(rng) if case.startswith("upl") else gen_load(rng) for _ in range(5)]
     c = parse_put(case)
